@@ -69,6 +69,7 @@ pub fn run(tier: &str) -> i32 {
             upgrade_transparency: false,
             syncing_toggles: true,
             sync_gate: false,
+            gate_toggle: false,
         };
         let e = explore(&m, &Limits::new(3, if quick { 300 } else { 6000 }));
         let pool_desc = ["G-P1-P2-P3 + fork F on P1, P2 paginated, two blocks per reply", "G-A1-A2 and G-B1-B2-B3, B2 paginated, one block per reply", "G-T1-...-T6, T2 paginated, one block and at most three announced headers per reply (each reply announces a header no earlier reply announced)", "as the first, with two coinciding split points: the second page is empty"][pool_kind as usize];
